@@ -5,6 +5,7 @@
 //         M pool <pid> <fixed> <keepAll> <gran> <fixedBytes> <freeCb>   create a pool (main thread, before the phase's threads)
 //         <t> dchurn <pid> <slot> <size> <log2 align|0>   scalable_malloc/aligned_malloc + free on the DEFAULT pool (same thread; slot unused)
 //         M fail <pid> <k> <count>                      raw-alloc calls number k .. k+count-1 of that pool fail (k=0: none)
+//         M osfail <pid> <0|1>                          refuse (1) / allow (0) tbbmalloc's own requests to the OS (not the pools' raw callbacks)
 //         M reset <pid> | M destroy <pid>
 //         <t> [!]pmalloc <pid> <slot> <size>            `!` = must succeed (recovery check)
 //         <t> [!]pamalloc <pid> <slot> <size> <log2 align>
@@ -26,6 +27,8 @@
 #define TBB_PREVIEW_MEMORY_POOL 1
 #include "oneapi/tbb/scalable_allocator.h"
 #include <sys/mman.h>
+#include <sys/syscall.h>
+#include <unistd.h>
 #include <atomic>
 #include <cerrno>
 #include <cstdarg>
@@ -70,6 +73,16 @@ struct PoolCtx {
 };
 
 static PoolCtx g_pools[8];
+
+// tbbmalloc's OWN requests to the OS (the back-reference table and everything else the library keeps outside the pools: it binds to
+// these definitions) can be refused on demand (`M osfail <pid> 1`); the pools' raw callbacks below go to the kernel directly.
+static std::atomic<int> g_os_fail{0}, g_os_refused{0};
+extern "C" void *mmap(void *addr, size_t len, int prot, int flags, int fd, off_t off) __THROW {
+    if (g_os_fail.load()) { g_os_refused++; errno = ENOMEM; return MAP_FAILED; }
+    return (void *)syscall(SYS_mmap, addr, len, prot, flags, fd, off);
+}
+extern "C" int munmap(void *addr, size_t len) __THROW { return (int)syscall(SYS_munmap, addr, len); }
+static void *raw_mmap(size_t bytes) { return (void *)syscall(SYS_mmap, nullptr, bytes, PROT_READ | PROT_WRITE, MAP_PRIVATE | MAP_ANONYMOUS, -1, 0); }
 static std::vector<Slot> *g_slots;
 static std::mutex g_mu, g_out;
 static std::map<uintptr_t, std::pair<uintptr_t, int>> g_live;
@@ -101,7 +114,7 @@ static void *rawAlloc(std::intptr_t id, std::size_t &bytes) {
     }
     if (c.gran && bytes % c.gran) violation("granularity", 0, "pool %d: raw request of %zu bytes is not a multiple of the granularity %zu", c.pid, bytes, c.gran);
     if (c.fixed) bytes = c.fixedBytes;
-    void *p = mmap(nullptr, bytes, PROT_READ | PROT_WRITE, MAP_PRIVATE | MAP_ANONYMOUS, -1, 0);
+    void *p = raw_mmap(bytes);
     if (p == MAP_FAILED) { c.failed++; return nullptr; }
     c.regions[(uintptr_t)p] = bytes;
     char b[96];
@@ -187,7 +200,15 @@ static void after_failure(const Op &op) {
     if (g_phaseThreads != 1) return;
     for (size_t i = 0; i < g_slots->size(); i++) {
         Slot &s = (*g_slots)[i];
-        if (s.p) check_pattern(op.line, s, "after-fail");
+        if (!s.p) continue;
+        check_pattern(op.line, s, "after-fail");
+        // ... and the allocator still knows every live block: size and owner are what they were when the block was handed out
+        PoolCtx &pc = g_pools[s.pid];
+        if (pc.alive) {
+            size_t m = rml::pool_msize(pc.pool, s.p);
+            if (m != s.usable) violation("after-fail", op.line, "after a failed operation pool_msize of live block %#zx (pool %d) is %zu, was %zu", (size_t)s.p, s.pid, m, s.usable);
+            if (rml::pool_identify(s.p) != pc.pool) violation("after-fail", op.line, "after a failed operation pool_identify of live block %#zx no longer names pool %d", (size_t)s.p, s.pid);
+        }
     }
 }
 
@@ -198,7 +219,7 @@ static void run_op(const Op &op) {
     int failed0 = c.failed.load();
     auto null_result = [&](size_t req) {
         g_nulls++;
-        bool injected = c.failed.load() != failed0;
+        bool injected = c.failed.load() != failed0 || g_os_fail.load() != 0;      // (the library's own OS requests are being refused)
         {   // ... or the pool's failure window is open right now (any raw request would be refused)
             std::lock_guard<std::mutex> l(c.mu);
             int nx = c.rawCalls + 1;
@@ -279,6 +300,8 @@ static void run_mop(const MOp &m) {
         rml::MemPoolError e = rml::pool_create_v1(m.pid, &pol, &c.pool);
         c.alive = e == rml::POOL_OK && c.pool;
         if (!c.alive) violation("create", m.line, "pool_create_v1 failed with %d", (int)e);
+    } else if (m.what == "osfail") {
+        g_os_fail = (int)m.a;
     } else if (m.what == "fail") {
         std::lock_guard<std::mutex> l(c.mu);
         c.failFrom = (int)m.a; c.failCount = (int)m.b;
